@@ -34,8 +34,10 @@ EXPL_CLASS = {
 
 def alias_names():
     txt = open(os.path.join(core.REPO, "Resources/Hexagon/Preprocessor/patches_macros.h")).read()
-    names = sorted(set(re.findall(r"HEX_REG_ALIAS_([A-Z0-9]+?)(?:_NEW)?\b", txt)))
-    return names
+    names = set(re.findall(r"HEX_REG_ALIAS_([A-Z0-9]+?)(?:_NEW)?\b", txt))
+    # plus the aliases of the architectural table that the bundled macros do not use (64-bit pairs)
+    names |= set(drive.ALIAS64)
+    return sorted(names)
 
 
 def spellings():
